@@ -506,27 +506,47 @@ Section Insert.
     - destruct Hrel as [Hex ->]. split; [auto|]. split; [|auto]. intros _. split; auto.
   Qed.
 
+End Insert.
+
+(* ---------------------------------------------------------------------- the top level: grow_up and insert
+   (H = ZIX_BTREE_MAX_HEIGHT enters here only) *)
+Section InsertTop.
+  Variable elt : Type.  Variable rank : elt -> Z.  Variable dflt : elt.  Variables L I : nat.
+  Hypothesis HI : I = L / 2.  Hypothesis HI3 : 3 <= I.
+  Variable H : nat.
+  Notation node := (node elt).  Notation tree := (tree elt).  Notation dnode := (@dnode elt).
+  Notation asc := (@asc elt rank).
+  Notation ins_sorted := (@ins_sorted elt).
+  Notation set_find := (@set_find elt).
+  Notation set_insert := (@set_insert elt).
+  Local Notation P7 l := (l elt rank dflt L I HI HI3) (only parsing).
+
   (* ------------------------------------------------------------------ zix_btree_grow_up *)
   Lemma grow_up_spec : forall h o r st r' o',
     root_ok L I h r -> is_full L I r = true ->
-    grow_up dflt L I o r = (st, r', o') ->
-    (forall b, In b o' -> In b o) /\ ((forall b, In b o -> b = true) -> st = SUCCESS) /\
+    grow_up dflt L I H o r = (st, r', o') ->
+    (forall b, In b o' -> In b o) /\ ((forall b, In b o -> b = true) -> st = SUCCESS \/ st = OVERFLOW) /\
     ((st = NO_MEM /\ r' = r) \/
-     (st = SUCCESS /\ kids_ok L I (S h) r' /\ n_vals r' = 1 /\ is_leaf r' = false /\
+     (st = OVERFLOW /\ r' = r /\ o' = o /\ H <= height r) \/
+     (st = SUCCESS /\ height r < H /\ kids_ok L I (S h) r' /\ n_vals r' = 1 /\ is_leaf r' = false /\
       height r' = S (height r) /\ elements r' = elements r)).
   Proof.
     intros h o r st r' o' (Hk & Hn & Hge) Efull E. unfold grow_up in E.
-    destruct (alloc o) as [ok1 o1] eqn:E1. destruct (alloc_spec _ _ _ E1) as [Ho1 Hok1].
+    destruct (H <=? height r) eqn:EH.
+    { apply pair_equal_spec in E as [E <-]. apply pair_equal_spec in E as [<- <-].
+      apply Nat.leb_le in EH. split; [auto|]. split; [auto|]. right. left. auto. }
+    apply Nat.leb_gt in EH.
+    destruct (alloc o) as [ok1 o1] eqn:E1. destruct (P7 alloc_spec _ _ _ E1) as [Ho1 Hok1].
     destruct ok1; cbn [negb] in E.
     2:{ apply pair_equal_spec in E as [E <-]. apply pair_equal_spec in E as [<- <-].
         split; [assumption|]. split; [|left; auto]. intros Hall. specialize (Hok1 Hall). discriminate. }
-    destruct (alloc o1) as [ok2 o2] eqn:E2. destruct (alloc_spec _ _ _ E2) as [Ho2 Hok2].
+    destruct (alloc o1) as [ok2 o2] eqn:E2. destruct (P7 alloc_spec _ _ _ E2) as [Ho2 Hok2].
     destruct ok2; cbn [negb] in E.
     2:{ apply pair_equal_spec in E as [E <-]. apply pair_equal_spec in E as [<- <-].
         split; [auto|]. split; [|left; auto]. intros Hall.
         assert (Hall1 : forall b, In b o1 -> b = true) by auto. specialize (Hok2 Hall1). discriminate. }
     apply pair_equal_spec in E as [E <-]. apply pair_equal_spec in E as [<- <-].
-    split; [auto|]. split; [reflexivity|]. right.
+    split; [auto|]. split; [auto|]. right. right.
     assert (Hfull : n_vals r = max_vals L I r)
       by (unfold is_full in Efull; apply Nat.eqb_eq in Efull; exact Efull).
     assert (Hh : h <> 0) by (intros ->; destruct r; destruct Hk).
@@ -536,12 +556,12 @@ Section Insert.
     assert (Hkp : kids_ok L I (S h) (Inode [] [r])).
     { cbn [kids_ok]. split; [assumption|]. split; [reflexivity|]. constructor; [assumption|constructor]. }
     destruct (split_node dflt L I r) as [[l m] rr] eqn:Esp.
-    pose proof (split_child_spec h [] [r] 0 l m rr Hkp (Nat.le_refl 0) Hfull Esp) as Hs. cbv zeta in Hs.
+    pose proof (P7 split_child_spec h [] [r] 0 l m rr Hkp (Nat.le_refl 0) Hfull Esp) as Hs. cbv zeta in Hs.
     destruct Hs as (Hsc & Hel & Hk1 & _).
     rewrite Hsc.
     pose proof (kids_ok_height _ rank dflt L I HI HI3 _ _ Hk1) as Hh1.
     pose proof (kids_ok_height _ rank dflt L I HI HI3 _ _ Hk) as Hh0.
-    split; [reflexivity|]. split; [assumption|]. split; [reflexivity|]. split; [reflexivity|].
+    split; [reflexivity|]. split; [assumption|]. split; [assumption|]. split; [reflexivity|]. split; [reflexivity|].
     split; [rewrite Hh1, Hh0; reflexivity|].
     rewrite Hel. cbn [elements map inter]. reflexivity.
   Qed.
@@ -551,24 +571,27 @@ Section Insert.
              (res : status * tree * list bool * list elt) : Prop :=
     let '(st, t', o', lg) := res in
     Inv rank L I t' /\
-    (st = SUCCESS \/ st = EXISTS \/ st = NO_MEM) /\
-    (st <> NO_MEM -> (st, elements (root t')) = set_insert rank (elements (root t)) e) /\
+    (st = SUCCESS \/ st = EXISTS \/ st = NO_MEM \/ st = OVERFLOW) /\
+    (st <> NO_MEM -> st <> OVERFLOW -> (st, elements (root t')) = set_insert rank (elements (root t)) e) /\
     (st = NO_MEM -> elements (root t') = elements (root t)) /\
     ((forall b, In b o -> b = true) -> st <> NO_MEM) /\
-    (forall x, In x lg -> In x (elements (root t))).
+    (forall x, In x lg -> In x (elements (root t))) /\
+    (st = OVERFLOW -> t' = t /\ o' = o /\ lg = [] /\ is_full L I (root t) = true /\ H <= height (root t)) /\
+    (height (root t) <= H -> height (root t') <= H).
 
   Lemma insert_finish : forall h0 o o0 t r0 e,
     asc (elements (root t)) -> size t = Z.of_nat (length (elements (root t))) ->
     kids_ok L I h0 r0 -> n_vals r0 < max_vals L I r0 -> (is_leaf r0 = false -> 1 <= n_vals r0) ->
     elements r0 = elements (root t) -> (forall b, In b o0 -> In b o) ->
+    (height (root t) <= H -> height r0 <= H) ->
     insert_post t e o
       (let '(st, r1, o1, lg) := insert_down rank dflt L I (height r0) o0 r0 e in
        (st, mkTree r1 (match st with SUCCESS => Z.succ (size t) | _ => size t end), o1, lg)).
   Proof.
-    intros h0 o o0 t r0 e Ha Hsz Hk0 Hnf Hge Hel0 Ho.
-    rewrite (kids_ok_height _ rank dflt L I HI HI3 h0 r0 Hk0).
+    intros h0 o o0 t r0 e Ha Hsz Hk0 Hnf Hge Hel0 Ho HH.
+    rewrite (kids_ok_height _ rank dflt L I HI HI3 h0 r0 Hk0) in *.
     assert (Ha0 : asc (elements r0)) by (rewrite Hel0; assumption).
-    pose proof (insert_down_spec h0 o0 r0 e Hk0 Hnf Ha0) as Hp.
+    pose proof (P7 insert_down_spec h0 o0 r0 e Hk0 Hnf Ha0) as Hp.
     destruct (insert_down rank dflt L I h0 o0 r0 e) as [[[st r1] o1] lg].
     destruct Hp as (Hk1 & Hleaf & Hn & Hrel & Ho1 & Hnm & Hlg).
     rewrite Hel0 in Hrel, Hlg.
@@ -576,52 +599,63 @@ Section Insert.
     { exists h0. unfold root_ok. split; [assumption|]. split; [lia|].
       intros Hl. rewrite Hleaf in Hl. specialize (Hge Hl). lia. }
     assert (Hor : (forall b, In b o -> b = true) -> st <> NO_MEM) by (intros Hall; apply Hnm; auto).
+    assert (Hht : height (root t) <= H -> height r1 <= H).
+    { intros Hle. rewrite (kids_ok_height _ rank dflt L I HI HI3 h0 r1 Hk1). auto. }
     unfold insert_post, Inv. cbn [root size].
     destruct st; cbn [ins_rel] in Hrel; try contradiction.
     - destruct Hrel as [Hne Hel1]. rewrite Hel1.
       split; [split; [assumption|split]|].
-      + apply asc_ins_sorted; assumption.
-      + rewrite length_ins_sorted. lia.
-      + split; [auto|]. split; [|split; [discriminate|split; assumption]].
-        intros _. unfold BTreeSpec.set_insert. rewrite set_find_none by assumption. reflexivity.
+      + apply (P7 asc_ins_sorted); assumption.
+      + rewrite (P7 length_ins_sorted). lia.
+      + split; [auto|]. split; [|split; [discriminate|split; [assumption|split; [assumption|split; [discriminate|assumption]]]]].
+        intros _ _. unfold BTreeSpec.set_insert. rewrite (P7 set_find_none) by assumption. reflexivity.
     - rewrite Hrel.
       split; [split; [assumption|split; assumption]|].
-      split; [auto|]. split; [intros H; contradiction|]. split; [reflexivity|]. split; assumption.
+      split; [auto|]. split; [intros Hc; contradiction|]. split; [reflexivity|].
+      split; [assumption|split; [assumption|split; [discriminate|assumption]]].
     - destruct Hrel as [[x [Hx Ex]] Hel1]. rewrite Hel1.
       split; [split; [assumption|split; assumption]|].
-      split; [auto|]. split; [|split; [discriminate|split; assumption]].
-      intros _. unfold BTreeSpec.set_insert.
-      destruct (set_find_some _ _ x Hx Ex) as [y ->]. reflexivity.
+      split; [auto|]. split; [|split; [discriminate|split; [assumption|split; [assumption|split; [discriminate|assumption]]]]].
+      intros _ _. unfold BTreeSpec.set_insert.
+      destruct (P7 set_find_some _ _ x Hx Ex) as [y ->]. reflexivity.
   Qed.
 
   Lemma insert_refines' : forall o t e, Inv rank L I t ->
-    insert_post t e o (insert rank dflt L I o t e).
+    insert_post t e o (insert rank dflt L I H o t e).
   Proof.
     intros o t e [[h Hr] [Ha Hsz]]. unfold insert.
     pose proof Hr as (Hk & Hn & Hge).
     destruct (is_full L I (root t)) eqn:Efull.
-    - destruct (grow_up dflt L I o (root t)) as [[st0 r0] o0] eqn:Eg.
+    - destruct (grow_up dflt L I H o (root t)) as [[st0 r0] o0] eqn:Eg.
       destruct (grow_up_spec h o (root t) st0 r0 o0 Hr Efull Eg)
-        as (Ho & Hok & [[-> ->]|(-> & Hk0 & Hn0 & Hl0 & _ & Hel0)]).
+        as (Ho & Hok & [[-> ->]|[(-> & -> & -> & HH)|(-> & HH & Hk0 & Hn0 & Hl0 & Hh0 & Hel0)]]).
       + unfold insert_post.
         split; [split; [exists h; assumption|split; assumption]|].
-        split; [auto|]. split; [intros H; contradiction|]. split; [reflexivity|].
-        split; [|intros x []]. intros Hall. specialize (Hok Hall). discriminate.
+        split; [auto|]. split; [intros Hc; contradiction|]. split; [reflexivity|].
+        split; [|split; [intros x []|split; [discriminate|auto]]].
+        intros Hall. destruct (Hok Hall); discriminate.
+      + unfold insert_post.
+        split; [split; [exists h; assumption|split; assumption]|].
+        split; [auto|]. split; [intros _ Hc; contradiction|]. split; [discriminate|].
+        split; [discriminate|]. split; [intros x []|]. split; [auto 6|auto].
       + apply (insert_finish (S h)); auto.
         * rewrite Hn0. unfold max_vals. rewrite Hl0. lia.
+        * intros _. lia.
         * intros _. lia.
     - apply (insert_finish h); auto.
       unfold is_full in Efull. apply Nat.eqb_neq in Efull. lia.
   Qed.
 
   Theorem insert_refines : forall o t e, Inv rank L I t ->
-    let '(st, t', o', lg) := insert rank dflt L I o t e in
+    let '(st, t', o', lg) := insert rank dflt L I H o t e in
     Inv rank L I t' /\
-    (st = SUCCESS \/ st = EXISTS \/ st = NO_MEM) /\
-    (st <> NO_MEM -> (st, elements (root t')) = set_insert rank (elements (root t)) e) /\
+    (st = SUCCESS \/ st = EXISTS \/ st = NO_MEM \/ st = OVERFLOW) /\
+    (st <> NO_MEM -> st <> OVERFLOW -> (st, elements (root t')) = set_insert rank (elements (root t)) e) /\
     (st = NO_MEM -> elements (root t') = elements (root t)) /\
     ((forall b, In b o -> b = true) -> st <> NO_MEM) /\
-    (forall x, In x lg -> In x (elements (root t))).
+    (forall x, In x lg -> In x (elements (root t))) /\
+    (st = OVERFLOW -> t' = t /\ o' = o /\ lg = [] /\ is_full L I (root t) = true /\ H <= height (root t)) /\
+    (height (root t) <= H -> height (root t') <= H).
   Proof. exact insert_refines'. Qed.
 
-End Insert.
+End InsertTop.
